@@ -26,6 +26,9 @@ class ScriptedSocket:
         self.trace = []      # per call: "d" transferred, "eof" recv gave b'' for n > 0, "r"/"f"/"t" raised, ("p" counts as "r" or "f")
 
     def _next(self):
+        # every call on a socket with a timeout T may legitimately take any time below T: the fake clock moves by 0.7 T
+        if self.timeout:
+            CLOCK[0] += 0.7 * self.timeout
         if self.idx >= len(self.script):
             raise ScriptEnd()
         ev = self.script[self.idx]
@@ -83,14 +86,28 @@ class ScriptedSocket:
         return len(self.script) - self.idx
 
 
+CLOCK = [1000.0]     # the fake clock that code under test reads through NoSleep (advanced by scripted socket calls and by sleeps)
+
+
 class NoSleep:
-    """replacement for the `time` module inside Pyro5.socketutil: back-off sleeps cost nothing"""
+    """replacement for the `time` module inside Pyro5.socketutil: back-off sleeps cost no real time; whoever reads the clock
+    (the unchanged functions do not) sees the fake clock, on which every socket call and every sleep takes its time"""
     def __init__(self, real):
         self._real = real
         self.slept = []
 
     def sleep(self, d):
         self.slept.append(d)
+        CLOCK[0] += max(0.0, float(d))
+
+    def monotonic(self):
+        return CLOCK[0]
+
+    def time(self):
+        return CLOCK[0]
+
+    def perf_counter(self):
+        return CLOCK[0]
 
     def __getattr__(self, name):
         return getattr(self._real, name)
